@@ -1330,15 +1330,11 @@ class Bits:
         # Search chunks starting near the end and then moving back.
         c = 0
         increment = max(8192, len(bs) * 80)
-        buffersize = min(increment + len(bs), msb0_end - msb0_start)
-        pos = max(msb0_start, msb0_end - buffersize)
+        buffersize = increment + len(bs)
+        window_end = msb0_end
         while True:
-            found = list(self._findall_msb0(bs, start=pos, end=pos + buffersize, count=None, bytealigned=False))
-            if not found:
-                if pos == msb0_start:
-                    return
-                pos = max(msb0_start, pos - increment)
-                continue
+            pos = max(msb0_start, window_end - buffersize)
+            found = list(self._findall_msb0(bs, start=pos, end=window_end, count=None, bytealigned=False))
             while found:
                 if count is not None and c >= count:
                     return
@@ -1346,10 +1342,10 @@ class Bits:
                 lsb0_pos = len(self) - found.pop() - len(bs)
                 if not bytealigned or lsb0_pos % 8 == 0:
                     yield lsb0_pos
-
-            pos = max(msb0_start, pos - increment)
             if pos == msb0_start:
                 return
+            # The next chunk ends where a match starting just before this one could end, so nothing is missed or seen twice.
+            window_end = pos + len(bs) - 1
 
     def rfind(self, bs: BitsType, /, start: Optional[int] = None, end: Optional[int] = None,
               bytealigned: Optional[bool] = None) -> Union[Tuple[int], Tuple[()]]:
